@@ -115,6 +115,19 @@ def p_two53(case, rec, exp):
     if case.get("kind") == "un" and case.get("op") in ("UInc", "UDec"):
         a, _ = _operands(case)
         return _int_like(a) and abs(a) == TWO53 and o.get("r") in big
+    if case.get("kind") == "str" and case.get("op") in ("number", "plus", "mul1", "sub0"):
+        s = _core_str(case) or ""
+        m = RADIX.match(s)
+        try:
+            if m:
+                v = int(m.group(2), BASE[m.group(1).lower()])
+            elif re.match(r"^[+-]?\d+$", s):
+                v = int(s)
+            else:
+                return False
+        except ValueError:
+            return False
+        return abs(v) == 2 ** 53 + 1 and o.get("r") in big
     return False
 
 
@@ -209,7 +222,7 @@ DEC = re.compile(r"^[+-]?(\d+\.?\d*|\.\d+)([eE][+-]?\d+)?$")
 
 
 def p_radix_long(case, rec, exp):
-    if case.get("kind") != "str" or case.get("op") not in ("number", "plus", "mul1", "sub0"):
+    if case.get("kind") != "str":
         return False
     s = _core_str(case)
     m = RADIX.match(s or "")
@@ -282,7 +295,29 @@ def p_mul_zero_sign(case, rec, exp):
     return neg and _obs(rec).get("r") == "int:0"
 
 
+def p_neg_zeros(case, rec, exp):
+    """'-00', '-000', ...: strconv.ParseInt gives 0 and only the exact text '-0' is special-cased"""
+    if case.get("kind") != "str" or case.get("op") not in ("number", "plus", "mul1", "sub0"):
+        return False
+    s = _core_str(case) or ""
+    return re.match(r"^-00+$", s) is not None and _obs(rec).get("r") == "int:0"
+
+
+def p_includes_negzero(case, rec, exp):
+    """[-0].includes(0) / [-0].includes(-0): only the search element is normalised to valueInt(0)"""
+    if case.get("kind") != "eq":
+        return False
+    o = _obs(rec)
+    obs = o.get("obs", [])
+    y = o.get("y", "")
+    yzero = y in ("int:0", "float:8000000000000000", "float:0000000000000000")
+    return o.get("x") == "float:8000000000000000" and yzero and len(obs) == 8 and obs[5] is False \
+        and obs[2:5] == [True, True, True] and obs[6:] == [True, True]
+
+
 PREDICATES = {
+    "C05.includes_negative_zero_element_missed": p_includes_negzero,
+    "C05.minus_zero_with_extra_zeros_is_plus_zero": p_neg_zeros,
     "C05.incdec_float_operand_not_canonicalised": p_incdec,
     "C05.neg_of_negative_zero_is_float_poszero": p_negzero,
     "C05.int_result_2p53_plus_1_stored_as_float": p_two53,
@@ -335,8 +370,8 @@ CFG = {
     "prop_file": "Properties/C05.v",
     "run_modules": ["Verif.C05.Run"],
     "coq_dirs": ["C05"],
-    "n": {"quick": 5000, "thorough": 300000},
-    "shard": 320,
+    "n": {"quick": 4000, "thorough": 300000},
+    "shard": 250,
     "max_report": 8,
     "shrink": False,          # cases are single operator applications: already minimal
     "level": "proof",
